@@ -535,9 +535,26 @@ func (f *Frame) parseFootprint(ct *Contract, ctx *SpecCtx, pre *State) []fpItem 
 		}
 		head := m
 		var baseExpr string
-		if i := strings.Index(m, "["); i >= 0 && strings.HasSuffix(m, "]") {
-			head = strings.TrimSpace(m[:i])
-			baseExpr = m[i+1 : len(m)-1]
+		if strings.HasSuffix(m, "]") {
+			// the bracket group that closes at the end of the item
+			depth := 0
+			for i := len(m) - 1; i >= 0; i-- {
+				if m[i] == ']' {
+					depth++
+				} else if m[i] == '[' {
+					depth--
+					if depth == 0 {
+						if i > 0 && !strings.HasSuffix(strings.TrimSpace(m[:i]), "map") {
+							head = strings.TrimSpace(m[:i])
+							baseExpr = m[i+1 : len(m)-1]
+						} else if strings.TrimSpace(m[:i]) == "map" {
+							head = "map"
+							baseExpr = m[i+1 : len(m)-1]
+						}
+						break
+					}
+				}
+			}
 		}
 		var it fpItem
 		it.fresh = fresh
